@@ -325,6 +325,39 @@ static void sc_res_gzip_prep(void) {
     fd_op('c', NULL, 0);
 }
 
+/* two content-coding layers: the second decompressor of the chain is created by the multi-token path of htp_tx_state_response_headers */
+static char fd_gz2_res[4096];
+static size_t fd_gz2_len;
+static void sc_res_gzip_multi_prep(void) {
+    fd_sc_reset(); fd_sc.decompress = 1; fd_sc.chunk = 61;
+    static const char body[] = "<html><body>two layers cccccccccccccccccccccccccccccccccccccccccccccccccccccccccccccccccc dddddddddddddddddddddddddddd</body></html>";
+    unsigned char inner[1024], outer[1024];
+    z_stream zs;
+    memset(&zs, 0, sizeof zs);
+    deflateInit2(&zs, 6, Z_DEFLATED, 15, 8, Z_DEFAULT_STRATEGY);
+    zs.next_in = (unsigned char *) body; zs.avail_in = sizeof body - 1; zs.next_out = inner; zs.avail_out = sizeof inner;
+    deflate(&zs, Z_FINISH);
+    size_t il = sizeof inner - zs.avail_out;
+    deflateEnd(&zs);
+    memset(&zs, 0, sizeof zs);
+    deflateInit2(&zs, 6, Z_DEFLATED, 15 + 16, 8, Z_DEFAULT_STRATEGY);
+    zs.next_in = inner; zs.avail_in = il; zs.next_out = outer; zs.avail_out = sizeof outer;
+    deflate(&zs, Z_FINISH);
+    size_t ol = sizeof outer - zs.avail_out;
+    deflateEnd(&zs);
+    size_t o = snprintf(fd_gz2_res, sizeof fd_gz2_res, "HTTP/1.1 200 OK\r\nContent-Encoding: gzip, deflate\r\nContent-Length: %zu\r\n\r\n", ol);
+    memcpy(fd_gz2_res + o, outer, ol);
+    fd_gz2_len = o + ol;
+    Q("GET /two HTTP/1.1\r\nHost: h\r\n\r\n");
+    fd_op('S', fd_gz2_res, fd_gz2_len);
+    /* a second exchange on the same connection: a body-less answer that announces a coding, then another coded answer */
+    Q("GET /three HTTP/1.1\r\nHost: h\r\n\r\n");
+    S("HTTP/1.1 304 Not Modified\r\nContent-Encoding: gzip\r\n\r\n");
+    Q("GET /four HTTP/1.1\r\nHost: h\r\n\r\n");
+    fd_op('S', fd_gz2_res, fd_gz2_len);
+    fd_op('c', NULL, 0);
+}
+
 static void sc_pipeline_prep_common(void) {
     fd_sc.chunk = 97;
     Q("GET /1 HTTP/1.1\r\nHost: a\r\n\r\n"
@@ -586,6 +619,7 @@ static fd_scenario_t fd_scenarios[] = {
     { "req_multipart", sc_req_multipart_prep, fd_run_script },
     { "chunked_put", sc_chunked_put_prep, fd_run_script },
     { "res_gzip", sc_res_gzip_prep, fd_run_script },
+    { "res_gzip_multi", sc_res_gzip_multi_prep, fd_run_script },
     { "pipeline_auto", sc_pipeline_auto_prep, fd_run_script },
     { "pipeline_manual", sc_pipeline_manual_prep, fd_run_script },
     { "many_tx", sc_many_tx_prep, fd_run_script },
